@@ -187,6 +187,97 @@ func byteInputs() []*input {
 	return l
 }
 
+// ---- (iii-b) literal bodies: the inside of string, character and number literals has its own
+// little lexers (escapes, digit separators, prefixes, exponents). All bodies of length <= 4
+// (quick 3) over an alphabet of the characters those lexers branch on, in each literal frame.
+
+var litAlpha = []byte{'\\', 'x', 'u', 'n', '0', '4', 'A', 'g', '{', '}', '"', '\'', '_', '.', 'e', '-', 'b', 0xC3}
+
+type litFrame struct{ name, pre, post string }
+
+var litFrames = []litFrame{
+	{"str", "fn main() { let s := \"", "\"; }\n"},
+	{"str-eof", "fn main() { let s := \"", ""},
+	{"char", "fn main() { let c := '", "'; }\n"},
+	{"num", "fn main() { let n := 0", "; }\n"},
+	{"num1", "fn main() { let n: i64 = 1", "; }\n"},
+}
+
+func litInputs(maxLen int) []*input {
+	var l []*input
+	fr := litFrames
+	if maxLen <= 3 {
+		fr = []litFrame{litFrames[0], litFrames[2], litFrames[3]} // quick: str, char, num
+	}
+	for _, f := range fr {
+		for L := 0; L <= maxLen; L++ {
+			n := ipow(len(litAlpha), L)
+			for j := 0; j < n; j++ {
+				bs := make([]byte, L)
+				hx := make([]string, L)
+				q := j
+				for p := L - 1; p >= 0; p-- {
+					bs[p] = litAlpha[q%len(litAlpha)]
+					q /= len(litAlpha)
+					hx[p] = fmt.Sprintf("%02x", bs[p])
+				}
+				id := "empty"
+				if L > 0 {
+					id = strings.Join(hx, ".")
+				}
+				l = append(l, &input{id: "lit/" + f.name + "/" + id, fam: "lit", entry: "main.fer", small: L <= 2,
+					files: map[string]string{"main.fer": f.pre + string(bs) + f.post}})
+			}
+		}
+	}
+	return l
+}
+
+// ---- (iii-c) many diagnostics: n copies of a construct that produces a warning / an info / an
+// error, followed (or preceded) by one error, for n around every power of ten and two up to
+// 300: a failing compilation must still show an error, however many other diagnostics there are.
+func manyDiagInputs() []*input {
+	var l []*input
+	kinds := []struct{ name, decl string }{
+		{"warn-const-cond", "fn w%d() { if true { } }\n"},
+		{"warn-unreachable", "fn w%d() -> i32 { return 1; return 2; }\n"},
+		{"info-trailing-comma", "fn w%d(a: i32, b: i32,) { }\n"},
+		{"warn-unused", "fn w%d() { let unused%d := 1; }\n"},
+		{"error-undefined", "fn w%d() { nope%d(); }\n"},
+	}
+	errs := []struct{ name, decl string }{
+		{"type-error", "fn bad() -> i32 { return \"s\"; }\n"},
+		{"undefined", "fn bad() { nowhere(); }\n"},
+		{"syntax", "fn bad() { let = ; }\n"},
+	}
+	for _, k := range kinds {
+		for _, e := range errs {
+			for _, n := range []int{1, 9, 10, 15, 16, 17, 31, 32, 33, 63, 64, 65, 99, 100, 101, 127, 128, 129, 255, 256, 257, 300} {
+				for _, where := range []string{"error-last", "error-first"} {
+					var sb strings.Builder
+					if where == "error-first" {
+						sb.WriteString(e.decl)
+					}
+					for i := 0; i < n; i++ {
+						if strings.Count(k.decl, "%d") == 2 {
+							fmt.Fprintf(&sb, k.decl, i, i)
+						} else {
+							fmt.Fprintf(&sb, k.decl, i)
+						}
+					}
+					if where == "error-last" {
+						sb.WriteString(e.decl)
+					}
+					sb.WriteString("fn main() { }\n")
+					l = append(l, &input{id: fmt.Sprintf("many/%s/%s/%s/%d", k.name, e.name, where, n), fam: "many", entry: "main.fer", small: true,
+						files: map[string]string{"main.fer": sb.String()}})
+				}
+			}
+		}
+	}
+	return l
+}
+
 // ---- (ii) single-token damage
 
 func damageInputs(ps []prog, bytePrefix bool) (ctl, dmg []*input) {
@@ -695,6 +786,12 @@ func Run(c *vl.Ctx) {
 	corpus := loadCorpus(c.Repo, quick)
 	ctl, dmg := damageInputs(corpus, !quick)
 	bytesIn := byteInputs()
+	litLen := 3
+	if !quick {
+		litLen = 4
+	}
+	litIn := litInputs(litLen)
+	manyIn := manyDiagInputs()
 	projIn := projectInputs(!quick)
 	var canary []*input
 	for fr := range frames {
@@ -709,7 +806,7 @@ func Run(c *vl.Ctx) {
 	for _, in := range ctl {
 		canary = append(canary, next(in))
 	}
-	for _, l := range [][]*input{projIn, dmg, bytesIn} {
+	for _, l := range [][]*input{projIn, dmg, bytesIn, manyIn, litIn} {
 		for _, in := range l {
 			next(in)
 		}
@@ -721,7 +818,7 @@ func Run(c *vl.Ctx) {
 		for _, id := range strings.Split(os.Getenv("VERIF_C13_IDS"), ",") {
 			want[id] = true
 		}
-		for _, l := range [][]*input{canary, projIn, dmg, bytesIn} {
+		for _, l := range [][]*input{canary, projIn, dmg, bytesIn, manyIn, litIn} {
 			for _, in := range l {
 				if want[in.id] {
 					run.WriteFiles(filepath.Join(d, strings.ReplaceAll(in.id, "/", "_")), in.replay())
@@ -794,6 +891,8 @@ func Run(c *vl.Ctx) {
 	stage("proj/check", "check", projIn)
 	stage("dmg/check", "check", dmg)
 	stage("byte/check", "check", bytesIn)
+	stage("many/check", "check", manyIn)
+	stage("lit/check", "check", litIn)
 	// the sample for the wasm back end: the controls and every damaged program / byte string
 	// the front end accepted
 	{
